@@ -258,6 +258,38 @@ def reexec_coverage(ck, res, byid):
         "last_window_has_an_earlier_day_bound": day_back, "databases_with_a_wanted_line_of_a_stream_indexed_only_before_the_first_day_bound": day_back_wanted}
 
 
+def unfinalized_coverage(ck, res, byid):
+    """round 8: the configuration branch `if !ctx.CHFinalize { return req, nil }` of MainFinalizerPlanner. Cases planned under a
+    context WITHOUT the flag (class ch-finalize-off): the statement must be the operand (no `prefinal`), agree with the model's
+    statement byte for byte, and return the reference answer (theorem logql_log_correct_any_finalize)."""
+    n, in_thm, no_prefinal, model_text, evals, wanted, cut, frag = 0, 0, 0, 0, 0, 0, 0, [0, 0, 0]
+    for cid, v in res.items():
+        c = byid[cid]
+        if not c["ctx"].get("no_ch_finalize"):
+            continue
+        n += 1
+        no_prefinal += 1 if "prefinal" not in c["sql"][0] else 0
+        if not v["ctx_ok"]:
+            continue
+        if v["fragment"] or v["fragment2"] or v["fragment3"]:
+            in_thm += 1
+            frag[0 if v["fragment"] else 1 if v["fragment2"] else 2] += 1
+            model_text += 1 if v["model_text"] else 0
+        for k, d in enumerate(v["dbs"]):
+            evals += 1
+            wanted += 1 if d["nwant"] > 0 else 0
+            cut += 1 if 0 < c["ctx"]["limit"] < d["nwant"] else 0
+    ck.obligation("CHFinalize not set (MainFinalizerPlanner returns the select under the outermost one): %d cases planned by the real planners under such a "
+                  "context, %d statements without `prefinal`, %d inside the theorems' fragments (filters only / relabelling / line_format: %s), %d of them "
+                  "byte-identical to the model's statement; %d evaluations, %d whose reference keeps a line, %d where the limit cuts the answer"
+                  % (n, no_prefinal, in_thm, "/".join(map(str, frag)), model_text, evals, wanted, cut),
+                  ck.replay or (n >= 20 and no_prefinal == n and in_thm >= 15 and model_text == in_thm and wanted >= 20 and cut >= 3), "")
+    ck.extra.setdefault("input_distribution", {})["ch_finalize_off (semantic search)"] = {
+        "cases": n, "statements_without_prefinal": no_prefinal, "inside_the_fragments": in_thm, "fragments_1_2_3": frag,
+        "byte_identical_to_the_model": model_text, "evaluations": evals, "evaluations_whose_reference_keeps_a_line": wanted,
+        "evaluations_where_the_limit_cuts_the_answer": cut}
+
+
 def pipeline(ck, tag, cases, ndb):
     """cases (query, ctx) -> real parser/planner (logqlsql) -> databases, oracle tables, parsed SQL (logqlsem)"""
     a = os.path.join(ck.work, tag + "_in.jsonl")
@@ -432,6 +464,7 @@ def run_semantic(ck, text_cases, recases=None):
                 findings_hit.setdefault(fid, []).append(rep)
     zone_coverage(ck, res, byid)
     reexec_coverage(ck, res, byid)
+    unfinalized_coverage(ck, res, byid)
     unbound = [byid[i]["query"] for i, v in res.items() if not v["wrefs"]]
     ck.obligation("every WithRef of the model's SELECT carries the query that the WITH list binds to its alias (%d plans)" % len(res),
                   not unbound, "; ".join(unbound[:3]))
